@@ -56,9 +56,9 @@ OTHER_OF = {"int": "intwide", "intwide": "int", "intreq": "str0", "str": "str0",
 
 # candidate values per field: classified at run time into valid / normalisable / invalid
 POOL = {
-    "int": [0, 1, 5, 7, 42, 100, "7", " 5 ", "100", 3.0, 2.5, None, -1, 101, "abc", "101", True, "", [1]],
+    "int": [0, 1, 5, 7, 42, 100, "7", " 5 ", "100", 3.0, 2.5, None, -1, 101, "abc", "101", True, "", [1], (1,), "%s"],
     "intreq": [0, 1, 5, 7, 42, 100, "7", " 5 ", "100", 3.0, None, -1, 101, "abc", True],
-    "str": ["a", "bc", "", "x y", " Ab ", "XY", "bC\t", None, 5, True, 2.5, ["a"]],
+    "str": ["a", "bc", "", "x y", " Ab ", "XY", "bC\t", "%s", "100%", "%(a)s", None, 5, True, 2.5, ["a"], (1, 2), ("a",)],
     "bool": [True, False, "yes", "no", "TRUE", "0", 1, 0, 7, None, "maybe", "", [True]],
     "intwide": [0, 7, 500, -50, 1000, 42, "7", " 900 ", 3.0, None, -51, 1001, "abc", True],
     "intinc": [0, 5, 20, 45, 60, "7", " 5 ", -1, 101, "abc", True, [1]],
@@ -259,6 +259,17 @@ def _list_matrix(fname, tier):
             single += [[("eq", o)], [("ne", o)]]
         if norm_init:
             single += [[("eq", [True if _same(x, 1) else x for x in norm_init])]]
+        # reflected positions, unpacking, comparisons both ways: contents, order and result type as the builtin gives them
+        raw = [reps["normalisable"], reps["invalid"]]
+        for items in ([], [v[0]], raw):
+            single += [[("radd", ("list", items))], [("radd", ("tuple", items))], [("concat", "sum", items, [])],
+                       [("concat", "sum", [], items)], [("concat", "star", items, raw)], [("concat", "sum", raw, items)]]
+        for o in (list(norm_init), tuple(norm_init), norm_init + [v[0]], None, norm_init[:-1], [v[0]], [v[1]], []):
+            single += [[("eqr", o)]]
+            if fname not in MUTABLE:
+                single += [[("lt", o)], [("gt", o)]]
+        if fname not in MUTABLE:
+            single += [[("lt", [None])], [("gt", ["a", 1])], [("lt", norm_init[:1] + ["zz"])], [("gt", norm_init[:1] + [1])]]
         for ops in single:
             # a second, observing operation makes partial effects and typedness visible
             cases.append({"kind": "list", "field": fname, "init": list(init), "ops": list(ops) + [("copy",)],
@@ -352,9 +363,15 @@ def _list_random(rng, fname, maxops):
             ops.append((k, rng.choice([-1, 0, 1, 2, 2, 3]) if n_est < 12 else rng.choice([0, 1])))
             if k == "imul":
                 n_est *= max(ops[-1][1], 0)
-        else:
+        elif r < 0.98:
             o = [rng.choice(QUERY[fname]) for _ in range(rng.randint(0, 3))]
-            ops.append((rng.choice(["eq", "ne"]), rng.choice([o, tuple(o), None])))
+            o = [x for x in o if not isinstance(x, float)] if fname not in MUTABLE else o
+            kinds = ["eq", "ne", "eqr"] + ([] if fname in MUTABLE else ["lt", "gt"])
+            ops.append((rng.choice(kinds), rng.choice([o, tuple(o), None])))
+        else:
+            items = [rng.choice(POOL[fname]) for _ in range(rng.randint(0, 2))]
+            ops.append(rng.choice([("radd", (rng.choice(["list", "tuple"]), items)),
+                                   ("concat", rng.choice(["sum", "star"]), items, [rng.choice(POOL[fname])])]))
         last = ops[-1]
         for part in last[1:]:
             if part is None and last[0] in ("append",):
@@ -412,6 +429,36 @@ def _bad_inits():
     return out
 
 
+ODD_KEYS = [(), (1,), (1, 2), ((1, 2), 3), ("a",), b"ab", None, True, 1.5, 7, "%s", "100%", "%(a)s", "%d%%", "k" * 300]
+
+
+def _odd_key_cases():
+    """a refused entry under a key of every hashable kind (accepted by an untyped key field, or itself the offence for
+    a typed one), through every entry point and in every placement: the error path renders the key as str(key)"""
+    out = []
+    for dk in DKINDS:
+        kcls, vcls = _dpools(dk)
+        _, kf, vf = _denv(dk)
+        k = [x for x in kcls["valid"] if x is not None and isinstance(x, (int, str)) and not isinstance(x, bool)] or kcls["valid"]
+        v = [x for x in vcls["valid"] if x is not None]
+        badv = vcls["invalid"][0]
+        for n, key in enumerate(ODD_KEYS):
+            key_ok = _validate(kf, key)[0] == "ok"
+            val = badv                       # the entry is refused either way: odd key accepted + bad value, or bad key
+            routes = [[("setitem", key, val)], [("setdefault", key, val)],
+                      [("update", ("dict", [(k[0], v[0]), (key, val)]), [])], [("update", ("pairs", [(key, val), (k[0], v[0])]), [])],
+                      [("update", ("gen", [(k[0], v[0]), (key, val)]), [])], [("ior", ("dict", [(key, val)]))],
+                      [("new", ("dict", [(key, val)]))], [("assign", ("dict", [(k[0], v[0]), (key, val)]))]]
+            if key_ok:
+                routes.append([("setitem", key, v[0]), ("setitem", key, val), ("copy",)])
+            for r, ops in enumerate(routes):
+                out.append({"kind": "dict", "field": dk, "init": [(k[0], v[0])], "ops": ops, "src": "odd-key",
+                            "place": PLACES[(n + r) % 3]})
+            out.append({"kind": "dict", "field": dk, "init": [(k[0], v[0]), (key, val)], "ops": [("copy",)], "src": "bad-init",
+                        "place": PLACES[n % 3]})
+    return out
+
+
 def generate(rng, tier):
     cases = [{"kind": "slots", "which": "list"}, {"kind": "slots", "which": "dict"}]
     for fname in FIELDS:
@@ -419,6 +466,7 @@ def generate(rng, tier):
     cases += _dict_matrix(tier)
     cases += _placed(cases)
     cases += _bad_inits()
+    cases += _odd_key_cases()
     nrand = 260 if tier == "quick" else 6000
     maxops = 14 if tier == "quick" else 40
     for i in range(nrand):
@@ -431,8 +479,13 @@ def generate(rng, tier):
 def generate_for(prop, rng, tier):
     """C15 looks at the error paths only: typed dicts everywhere, lists where the whole value is assigned or placed"""
     cases = generate(rng, tier)
-    if prop == "C15":
-        cases = [c for c in cases if c["kind"] == "dict" or c.get("src") in ("bad-init", "placed")]
+    storing = ("append", "insert", "setitem", "extend", "iadd", "add", "setslice", "new", "assign", "copy",
+               "setdefault", "setdefault1", "update", "ior")
+    if prop == "C15":      # error paths: operations that validate entries, whole-value assignments, placements
+        cases = [c for c in cases if c.get("src") in ("bad-init", "placed", "odd-key", "random") and (c["kind"] == "dict" or c.get("src") != "random")
+                 or (c["kind"] == "dict" and c["ops"] and c["ops"][0][0] in storing and c["ops"][0][0] != "copy")]
+    if prop == "C01":      # held items are validated items: operations that store or hand out items (queries are C17's)
+        cases = [c for c in cases if c.get("kind") == "slots" or c.get("src") != "matrix" or (c["ops"] and c["ops"][0][0] in storing)]
     if prop == "C06":      # "a rejected single-item operation leaves the container unchanged": histories with such operations
         single = ("append", "insert", "setitem", "setdefault", "setdefault1")
         cases = [c for c in cases if c.get("src") == "random" or any(op[0] in single for op in c.get("ops", []))]
@@ -443,8 +496,8 @@ def generate_for(prop, rng, tier):
 # dict part
 # ---------------------------------------------------------------------------------------------
 DKINDS = {"si": ("str", "int"), "is": ("int", "str"), "ab": ("any", "bool")}
-POOL["any"] = [1, True, 1.0, "a", None, 0, False, "A", 2]
-QUERY["any"] = [1, True, 1.0, "a", None, 0, 2.5, "zz", False]
+POOL["any"] = [1, True, 1.0, "a", None, 0, False, "A", 2, (), (1,), (1, 2), ((1, 2), 3), b"ab", "%s", "100%"]
+QUERY["any"] = [1, True, 1.0, "a", None, 0, 2.5, "zz", False, (1, 2), (1,), b"ab", "%s"]
 # string keys / values the "other" dict field (StringField -> StringField) can hold, per key / value field of the main dict
 DOTHER_POOL = {"int": ["7", "0", " 9 ", "100", "abc", "101", ""], "str": OTHER_POOL["str"], "bool": OTHER_POOL["bool"],
                "any": ["a", "b", "1"]}
@@ -604,7 +657,11 @@ def _dict_matrix(tier):
             ninit = list(dict((kf.validate(None, a), vf.validate(None, b)) for a, b in init).items())
             for o in (("dict", ninit), ("dict", list(reversed(ninit))), ("dict", ninit[:-1]), ("dict", ninit + [("zz9", v[0])]),
                       ("val", None), ("val", [list(p) for p in ninit])):
-                single += [[("eq", o)], [("ne", o)]]
+                single += [[("eq", o)], [("ne", o)], [("eqr", o)]]
+            # the reflected position and unpacking: a plain dict, left operand first
+            okp = [(k[0], v[0]), ((kcls["normalisable"] or k)[0], (vcls["invalid"] or v)[0])]
+            for ps in ([], okp[:1], okp, ninit):
+                single += [[("ror", ps)], [("star", ps, [])], [("star", [], ps)], [("star", ps, okp)]]
             if ninit:
                 single += [[("eq", ("dict", [(a, (True if _same(b, 1) else (1 if b is True else b))) for a, b in ninit]))]]
             for ops in single:
@@ -684,7 +741,8 @@ def _dict_random(rng, i, maxops):
             ops.append((rng.choice(["len", "items", "keys", "values", "reversed"]),))
         elif r < 0.96:
             o = rng.choice([("dict", list(dict(rpairs(rng.randint(0, 2), True)).items())), ("val", None), ("val", [])])
-            ops.append((rng.choice(["eq", "ne"]), o))
+            ops.append((rng.choice(["eq", "ne", "eqr"]), o) if rng.random() < 0.6 else
+                       rng.choice([("ror", rpairs(rng.randint(0, 2))), ("star", rpairs(rng.randint(0, 2)), rpairs(rng.randint(0, 1)))]))
         else:
             src = rsrc()
             ops.append(("or", src) if src[0] in OR_KINDS else ("update", src, []))
@@ -764,8 +822,12 @@ def _g_dop(dk, op):
         return "(DGet %s (Some %s))" % (gal(op[1]), gal(op[2]))
     if k in ("delitem", "getitem", "contains"):
         return "(%s %s)" % ({"delitem": "DDelItem", "getitem": "DGetItem", "contains": "DContains"}[k], gal(op[1]))
-    if k in ("eq", "ne"):
-        return "(%s %s)" % ("DEq" if k == "eq" else "DNe", _g_eqarg(op[1]))
+    if k in ("eq", "ne", "eqr"):
+        return "(%s %s)" % ({"eq": "DEq", "ne": "DNe", "eqr": "DEqR"}[k], _g_eqarg(op[1]))
+    if k == "ror":
+        return "(DROr %s)" % _g_pairs(_dict_collapse(op[1]))
+    if k == "star":
+        return "(DStar %s %s)" % (_g_pairs(_dict_collapse(op[1])), _g_pairs(_dict_collapse(op[2])))
     simple = {"copy": "DCopy", "popitem": "DPopItem", "clear": "DClear", "len": "DLen", "items": "DItems", "keys": "DKeys",
               "values": "DValues", "reversed": "DReversed"}
     if k in simple:
@@ -882,9 +944,13 @@ def _apply_dict(obj, op, arg, kw):
         return list(obj.values())
     if k == "reversed":
         return list(reversed(obj))
-    if k in ("eq", "ne"):
+    if k in ("eq", "ne", "eqr"):
         o = dict(op[1][1]) if op[1][0] == "dict" else op[1][1]
-        return (obj == o) if k == "eq" else (obj != o)
+        return (obj == o) if k == "eq" else ((obj != o) if k == "ne" else (o == obj))
+    if k == "ror":
+        return dict(op[1]) | obj                # the container is the RIGHT operand
+    if k == "star":
+        return {**dict(op[1]), **obj, **dict(op[2])}
     raise Broken("bad dict op %r" % (op,))
 
 
@@ -926,8 +992,10 @@ def _impl_dict(c):
             shown = path
             if isinstance(path, str) and path.startswith(pre + "[") and path.endswith("]"):
                 inner = path[len(pre) + 1:-1]
-                if inner in {"%s" % x for x in keys if isinstance(x, float)}:
+                if inner in {str(x) for x in keys if isinstance(x, float)}:
                     shown = pre + "[<float>]"          # float text is not modelled
+                elif inner in {str(x) for x in keys if not (x is None or isinstance(x, (bool, int, float, str)))}:
+                    shown = pre + "[<other>]"          # nor is the text of tuples / bytes (the oracle compares it exactly)
             return ("err", ("validation", shown)), {"cls": "ValidationError", "path": path, "text_has": str(path) in str(e)}
         except Exception as e:  # noqa
             return ("err", _errkind(e)), {"cls": type(e).__name__, "path": None, "text_has": False}
@@ -1261,8 +1329,12 @@ def _g_lop(fname, op):
         return "(LSort %s)" % g_bool(op[1])
     if k in ("mul", "rmul", "imul"):
         return "(%s %s)" % ({"mul": "LMul", "rmul": "LRMul", "imul": "LIMul"}[k], g_z(op[1]))
-    if k in ("eq", "ne"):
-        return "(%s %s)" % ({"eq": "LEq", "ne": "LNe"}[k], gal(op[1]))
+    if k in ("eq", "ne", "eqr", "lt", "gt"):
+        return "(%s %s)" % ({"eq": "LEq", "ne": "LNe", "eqr": "LEqR", "lt": "LLt", "gt": "LGt"}[k], gal(op[1]))
+    if k == "radd":
+        return "(LRAdd (%s %s))" % ({"list": "ItList", "tuple": "ItTuple"}[op[1][0]], g_list(op[1][1], gal))
+    if k == "concat":
+        return "(LConcat %s %s %s)" % (g_bool(op[1] == "star"), g_list(op[2], gal), g_list(op[3], gal))
     raise Broken("bad list op %r" % (op,))
 
 
@@ -1401,6 +1473,18 @@ def _apply_list(obj, op, arg):
         return obj == op[1]
     if k == "ne":
         return obj != op[1]
+    if k == "eqr":
+        return op[1] == obj
+    if k == "lt":
+        return obj < op[1]
+    if k == "gt":
+        return op[1] < obj
+    if k == "radd":
+        return {"list": list, "tuple": tuple}[op[1][0]](op[1][1]) + obj     # the container is the RIGHT operand
+    if k == "concat":
+        if op[1] == "star":
+            return [*op[2], *obj, *op[3]]
+        return sum([list(op[2]), obj, list(op[3])], [])
     raise Broken("bad list op %r" % (op,))
 
 
